@@ -312,6 +312,64 @@ func udpClient(callers int, wrap bool, quick, thorough int) h.Scenario {
 	}}
 }
 
+// ---- udp client: the peer answers one call with an error datagram (its identifier with the error flag) ----
+
+// Caller 0's request is refused by the peer with an error datagram; caller 1's is answered, now or later.
+// The error concerns caller 0 only: caller 1 gets its own response.
+func udpClientErrorDatagram(quick, thorough int) h.Scenario {
+	name := "udp-client/error-datagram-for-one-of-two-calls"
+	return h.Scenario{Name: name, Quick: quick, Thorough: thorough, Run: func(ch vs.Chooser, trace bool) (*vs.Sched, h.Outcome) {
+		got := make([]string, 2)
+		errs := make([]error, 2)
+		only("udp")
+		s := vs.Run(ch, vs.Config{Trace: trace, Dial: func(network, addr string) (vs.Conn, error) {
+			var hold []held
+			c := &vs.DgramConn{Name: "uconn"}
+			c.React = func(c *vs.DgramConn, d []byte) [][]byte {
+				idx, body, ok := sockfake.UParse(d)
+				if !ok {
+					return nil
+				}
+				if string(body) == "payload-of-caller-0" {
+					return [][]byte{sockfake.UFrame(idx|0x8000, []byte("the peer refuses this call"))}
+				}
+				if vs.Choose(2, "peer-answers-now-or-later") == 0 {
+					return [][]byte{sockfake.UFrame(idx, sockfake.Reply(body))}
+				}
+				hold = append(hold, held{idx, append([]byte{}, body...)})
+				vs.AddTimer(1000, "peer-answers-held-request", func() {
+					for _, hd := range hold {
+						c.Deliver(sockfake.UFrame(hd.index, sockfake.Reply(hd.body)))
+					}
+					hold = nil
+				})
+				return nil
+			}
+			return c, nil
+		}}, func() {
+			client := core.NewClient("udp://peer/")
+			for i := 0; i < 2; i++ {
+				i := i
+				vs.GoFG(fmt.Sprintf("caller%d", i), func() {
+					got[i], errs[i] = call(client, fmt.Sprintf("payload-of-caller-%d", i))
+				})
+			}
+		})
+		var o h.Outcome
+		o.Key = fmt.Sprint(got, errs[0] != nil, errs[1] != nil)
+		if len(s.Hangs) > 0 || s.Pruned || s.Aborted != "" {
+			return s, o
+		}
+		if errs[0] == nil {
+			o.Viol = append(o.Viol, h.V{Sig: "udp|refused-call-got-a-response", What: fmt.Sprintf("%s: caller 0 got %q although the peer refused its call", name, got[0])})
+		}
+		if errs[1] != nil || got[1] != "re:payload-of-caller-1" {
+			o.Viol = append(o.Viol, h.V{Sig: "udp|error-datagram-for-one-call-fails-another", What: fmt.Sprintf("%s: caller 1 got %q, %v; the peer answered its request, the error datagram named caller 0's", name, got[1], errs[1])})
+		}
+		return s, o
+	}}
+}
+
 // ---- udp client: a call that stays pending while the 15-bit identifier space goes once round ----
 
 // The 32767 calls in between are not run: once the first request is on the wire the request counter is set back,
@@ -445,7 +503,7 @@ func main() {
 	scen := []h.Scenario{
 		socketClient(2, false, 2, 3), socketClient(2, true, 2, 3), socketClient(3, true, 1, 2),
 		udpClient(2, false, 2, 3), udpClient(2, true, 2, 3), udpClient(3, true, 1, 2),
-		udpClientLap(2, 3),
+		udpClientLap(2, 3), udpClientErrorDatagram(2, 3),
 		socketServer(2, false, 2, 3), socketServer(3, false, 1, 2), socketServer(2, true, 2, 3),
 		socketServer(2, false, 2, 3, true), socketServer(3, false, 1, 2, true), socketServer(2, true, 2, 3, true),
 		reverseScenario(2, 0, 2, 3), reverseScenario(2, time.Second, 2, 3),
